@@ -64,7 +64,7 @@ MAP = {
 }
 
 # caller-established preconditions: the next token belongs to one of these token classes whenever the method is called
-PRE = {"parse_string_literal": ("String", "BlockString")}
+PRE = {"parse_string_literal": ("String", "BlockString"), "parse_type_system_extension": ("Name",)}
 
 # entry points: (function that drives the parser, Parser method, arguments, what it must accept)
 ENTRIES = [("parse", "parse_document", ()), ("parse_value", "parse_value_literal", (False,)), ("parse_type", "parse_type_reference", ())]
